@@ -311,6 +311,13 @@ def check_inv(ck, inv_lines, stats):
             stats["inv_skipped_tick"] += 1
             continue
         idx = match[0][2]
+        if idx != "-" and f[NF] == "0" and (skipped or (f[6], f[7]) == ("0", "0")):
+            # the state after a firing step equals the state before it (counter 0 -> 128 -> 0 at full speed on a
+            # one-byte loop: position 0 -> 0), so "update_invloop did not run for this channel in this tick" cannot be
+            # told from "it fired"; likewise the state (0,0) after a firing step that wraps the position equals the state
+            # after the player reset the channel without running update_invloop; nothing was flipped, so it did not run
+            stats["inv_skipped_tick_ambiguous"] += 1
+            continue
         ck.count(vlib.hash_str(" ".join(f[3:23])), nontrivial=idx != "-")
         if idx != "-":
             stats["inv_stores"] += 1
